@@ -1,5 +1,9 @@
 import GB.Base.Bytes
+import GB.C03.Model
+import GB.C08.Model
 import GB.C12.Model
+import GB.C13.Model
+import GB.C19.Model
 /-
   C17 — models of the small client-facing cores, with every Go partial operation explicit.
 
@@ -8,6 +12,14 @@ import GB.C12.Model
   arithmetic: `len(k)-1` is -1 for an empty string, not 0), closing a channel twice, running a loop
   out of its fuel.  Every function below returns `Except Fault α`; the theorems in Props.lean show
   the `Fault` branch is unreachable for ALL inputs.
+
+  NO PRIVATE COPIES: where another slice already models a core (C19 dispatch and parseMetadataQuery,
+  C08 gRPC-Web recv / OnMessage, C03 RouteHTTP, C12 decodeTimeout, C13 closeReason) that model is
+  IMPORTED.  Those models are total functions that hide the partial operation (pattern matching,
+  `take`/`drop`, truncated `Nat` subtraction); the functions here redo only the partial operations
+  Fault-explicitly, use the other slice's definitions for every guard and result, and Props.lean
+  proves each of them EQUAL to the imported model (`C17_*_is_C08` / `_is_C19` / `_is_C03` / `_is_C13`),
+  so the two descriptions cannot drift apart.
 -/
 namespace GB.C17
 open GB
@@ -52,21 +64,11 @@ def goIndexL (xs : List Bytes) (i : Int) : Except Fault Bytes :=
   else .error .indexOutOfRange
 
 def hasPrefix (s p : Bytes) : Bool := p.isPrefixOf s
-def hasSuffix (s p : Bytes) : Bool := p.isSuffixOf s
 
-def lowerByte (b : UInt8) : UInt8 := if 65 ≤ b ∧ b ≤ 90 then b + 32 else b
-def toLowerAscii (s : Bytes) : Bytes := s.map lowerByte
-/-- internal/ascii.EqualFold -/
-def eqFold (a b : Bytes) : Bool := toLowerAscii a == toLowerAscii b
+/-- internal/ascii.EqualFold (GB.C19) -/
+def eqFold (a b : Bytes) : Bool := GB.C19.equalFold a b
 
-/-! ## webbridge.parseMetadataQuery — per-key decision and the key slice -/
-
-def defaultMetadataParam : Bytes := [95, 109, 101, 116, 97, 100, 97, 116, 97]  -- "_metadata"
-
-def isValidMetadataKeyByte (ch : UInt8) : Bool :=
-  (97 ≤ ch && ch ≤ 122) || (65 ≤ ch && ch ≤ 90) || (48 ≤ ch && ch ≤ 57) || ch == 95 || ch == 45 || ch == 46
-
-def isValidMetadataKey (k : Bytes) : Bool := k.all isValidMetadataKeyByte
+/-! ## webbridge.parseMetadataQuery — per-key decision and the key slice (guards and results: GB.C19) -/
 
 inductive MdKeyResult where
   | skip                 -- not of the form param[...]: stays in the query
@@ -76,47 +78,46 @@ inductive MdKeyResult where
 
 /-- One iteration of the loop of `parseMetadataQuery` for query key `k` (the value is valid), `param` non-empty. -/
 def mdKeyWith (param k : Bytes) : Except Fault MdKeyResult :=
-  if !(hasPrefix k (param ++ [91]) && hasSuffix k [93]) then .ok .skip
+  if !GB.C19.isMetaKey param k then .ok .skip
   else do
     -- mdKey := k[len(param)+1 : len(k)-1]
     let mk ← goSlice k ((param.length : Int) + 1) ((k.length : Int) - 1)
-    if isValidMetadataKey mk then .ok (.md (toLowerAscii mk)) else .ok .drop
+    if GB.C19.isValidMetadataKey mk then .ok (.md (GB.C19.lower mk)) else .ok .drop
 
 /-- `if param == "" { param = defaultMetadataParam }` then the loop body. -/
 def mdKey (param k : Bytes) : Except Fault MdKeyResult :=
-  mdKeyWith (if param.isEmpty then defaultMetadataParam else param) k
+  mdKeyWith (if param.isEmpty then GB.C19.defaultParam else param) k
 
-/-! ## gRPC-WebSocket `gwsGRPCWebHandler.OnMessage` after the metadata frame -/
+/-! ## gRPC-WebSocket `gwsGRPCWebHandler.OnMessage` after the metadata frame (state and events: GB.C08) -/
 
-structure GwsOut where
-  closed : Bool
-  delivered : Option (Bytes × Bool)   -- data[6:] and "the event carries an error"
-  closeEvents : Bool
-  deriving Repr, DecidableEq
-
-/-- One `OnMessage` call with `stream.receivedMD = true`. -/
-def gwsOnMessage (closed : Bool) (data : Bytes) : Except Fault GwsOut :=
-  if closed then .ok { closed := true, delivered := none, closeEvents := false }
+open GB.C08 (WS WSEv RecvErr) in
+/-- One `OnMessage` call with `stream.receivedMD = true` (after fixes D8/D8b: `>= 6`, errors are delivered). -/
+def gwsOnMessage (st : WS) (data : Bytes) : Except Fault (WS × List WSEv) :=
+  if st.closed then .ok (st, [])
   else do
-    -- if len(data) > 0 { stream.closed = data[0] == 1 } else { event.err = ... }
-    let (closed', err) ←
-      if data.length > 0 then (do let b ← goIndex data 0; pure (b == 1, false))
-      else pure (false, true)
-    -- if len(data) > 6 { event.data = data[6:]; deliver } else if … { event.err = … (never delivered) }
-    let delivered ←
-      if data.length > 6 then (do let d ← goSliceFrom data 6; pure (some (d, err)))
-      else pure none
+    -- if len(data) > 0 { stream.closed = data[0] == 1 } else { event.err = "expected flow control byte" }
+    let (closed, err0) ←
+      if data.length > 0 then (do let b ← goIndex data 0; pure (b == 1, (none : Option RecvErr)))
+      else pure (false, some RecvErr.flow)
+    -- if len(data) >= 6 { event.data = data[6:] } else if event.err == nil && len(data) != 1 { event.err = "expected …header" }
+    let evs ←
+      if data.length ≥ 6 then (do let d ← goSliceFrom data 6; pure [WSEv.msg d])
+      else if err0.isNone && data.length != 1 then pure [WSEv.err RecvErr.wsHeader]
+      else match err0 with
+        | some e => pure [WSEv.err e]
+        | none => pure []
     -- if stream.closed { close(stream.events) }
-    pure { closed := closed', delivered := delivered, closeEvents := closed' }
+    pure ({ st with closed := closed }, evs ++ (if closed then [WSEv.eof] else []))
 
-/-- A whole session: `events` must never be closed twice (`close` of a closed channel panics). -/
-def gwsSession : Bool → Bool → List Bytes → Except Fault (Bool × Bool)
-  | closed, evClosed, [] => .ok (closed, evClosed)
-  | closed, evClosed, d :: rest => do
-    let o ← gwsOnMessage closed d
-    if o.closeEvents then
-      if evClosed then .error .closeOfClosedChannel else gwsSession o.closed true rest
-    else gwsSession o.closed evClosed rest
+/-- A whole session: `events` must never be closed twice (`close` of a closed channel panics).
+    state = stream state and "events already closed". -/
+def gwsSession : GB.C08.WS → Bool → List Bytes → Except Fault (GB.C08.WS × Bool)
+  | st, evClosed, [] => .ok (st, evClosed)
+  | st, evClosed, d :: rest => do
+    let (st', evs) ← gwsOnMessage st d
+    if evs.contains GB.C08.WSEv.eof then
+      if evClosed then .error .closeOfClosedChannel else gwsSession st' true rest
+    else gwsSession st' evClosed rest
 
 /-! ## transcoded WebSocket `gwsHandler.OnMessage`: `close(stream.events)` at most once -/
 
@@ -134,59 +135,45 @@ def wsSession (cs body : Bool) : Bool → Bool → Nat → Except Fault (Bool ×
         if evClosed then .error .closeOfClosedChannel else wsSession cs body alreadyRead' true n
       else wsSession cs body alreadyRead' evClosed n
 
-/-! ## gRPC-Web `gRPCWebStream.recv` -/
+/-! ## gRPC-Web `gRPCWebStream.recv` (result type, limit and `be32`: GB.C08) -/
 
-def be32 (b : Bytes) : Nat := b.foldl (fun acc x => acc * 256 + x.toNat) 0
-
-inductive RecvResult where
-  | eof                                  -- io.EOF: clean end of the request stream
-  | unavailable (consumed : Nat)         -- short header / short body
-  | empty (consumed : Nat)               -- length 0: nothing to unmarshal
-  | payload (consumed : Nat) (data : Bytes)  -- handed to proto.Unmarshal (which may still reject it)
-  deriving Repr, DecidableEq
-
-def maxRecv : Nat := 4194304  -- 1<<22
-
-def gwRecv (body : Bytes) : Except Fault RecvResult :=
-  if body.length == 0 then .ok .eof
-  else if body.length < 5 then .ok (.unavailable body.length)
+/-- One `recv` on the remaining body: result and unread rest, with the header slices explicit
+    (after fix D7: a declared length above the limit is rejected, not truncated). -/
+def gwRecv (body : Bytes) : Except Fault (GB.C08.RecvRes × Bytes) :=
+  if body.length == 0 then .ok (.eof, [])                       -- io.ReadFull read nothing: io.EOF
+  else if body.length < 5 then .ok (.err .header, [])            -- ErrUnexpectedEOF
   else do
     let header ← goSliceTo body 5
     let rest ← goSliceFrom body 5
-    let lenBytes ← goSlice header 1 5          -- header[1:5]
-    let length := be32 lenBytes
-    if length < 1 then .ok (.empty 5)
-    else
-      let n := min length maxRecv
-      if rest.length < n then .ok (.unavailable body.length)
-      else do
-        let data ← goSliceTo rest n
-        .ok (.payload (5 + n) data)
+    let lenBytes ← goSlice header 1 5                            -- header[1:5]
+    let a ← goIndex lenBytes 0
+    let b ← goIndex lenBytes 1
+    let c ← goIndex lenBytes 2
+    let d ← goIndex lenBytes 3
+    let length := GB.C08.be32 a b c d                            -- binary.BigEndian.Uint32
+    if length < 1 then .ok (.msg [], rest)
+    else if length > GB.C08.maxMsg then .ok (.err .oversize, rest)
+    else if rest.length < length then .ok (.err .body, [])
+    else do
+      let data ← goSliceTo rest length                           -- the make([]byte, length) buffer, filled
+      let rest' ← goSliceFrom rest length
+      .ok (.msg data, rest')
 
-/-! ## routing.PatternRouter.RouteHTTP — path splitting and verb slicing -/
-
-/-- `strings.Split(s, "/")` -/
-def splitSlash : Bytes → List Bytes
-  | [] => [[]]
-  | c :: rest =>
-    if c == 47 then [] :: splitSlash rest
-    else match splitSlash rest with
-      | [] => [[c]]   -- unreachable (splitSlash is never empty)
-      | h :: t => (c :: h) :: t
+/-! ## routing.PatternRouter.RouteHTTP — path splitting and verb slicing (`splitSlash`, `hasSuffix`: GB.C03) -/
 
 inductive RouteSlices where
   | invalid                                   -- path does not start with '/': InvalidArgument
-  | notFound                                  -- a last segment consisting only of the verb
-  | comps (matchComponents : List Bytes) (verb : Bytes)
+  | skipRoute                                 -- a last segment consisting only of the verb: this route is skipped (fix D3)
+  | comps (matchComponents : List Bytes) (verb : Bytes)   -- arguments of `MatchAndEscape`
   deriving Repr, DecidableEq
 
 /-- `verbIdx` of `RouteHTTP` for one route whose pattern verb is `patternVerb`. -/
 def verbIndex (last patternVerb : Bytes) : Int :=
-  if patternVerb ≠ [] ∧ hasSuffix last (58 :: patternVerb) then (last.length : Int) - patternVerb.length - 1 else -1
+  if patternVerb ≠ [] ∧ GB.C03.hasSuffix last (58 :: patternVerb) then (last.length : Int) - patternVerb.length - 1 else -1
 
-/-- What `RouteHTTP` does with `verbIdx`. -/
+/-- What the closure of `RouteHTTP` does with `verbIdx` for one route. -/
 def routeSlicesAt (pathComponents : List Bytes) (last : Bytes) (verbIdx : Int) : Except Fault RouteSlices :=
-  if verbIdx == 0 then .ok .notFound
+  if verbIdx == 0 then .ok .skipRoute
   else if verbIdx > 0 then do
     let a ← goSliceTo last verbIdx                                  -- lastPathComponent[:verbIdx]
     let v ← goSliceFrom last (verbIdx + 1)                          -- lastPathComponent[verbIdx+1:]
@@ -200,7 +187,7 @@ def routeSlices (path patternVerb : Bytes) : Except Fault RouteSlices :=
   if !hasPrefix path [47] then .ok .invalid
   else do
     let p1 ← goSliceFrom path 1                                      -- path[1:]
-    let pathComponents := splitSlash p1
+    let pathComponents := GB.C03.splitSlash p1
     let last ← goIndexL pathComponents ((pathComponents.length : Int) - 1)  -- pathComponents[len-1]
     routeSlicesAt pathComponents last (verbIndex last patternVerb)
 
@@ -393,25 +380,20 @@ def websocketError : WsErr → Nat × Bool
   | .status _ => (1001, true)
   | .plain => (1001, false)
 
-/-! ### the close reason must fit a control frame: `truncateCloseReason` (valid UTF-8 input) -/
+/-! ### the close reason must fit a control frame: `closeReason` on valid UTF-8 (constants, `runeStart`: GB.C13) -/
 
-def maxCloseReasonLen : Nat := 123
-
-/-- `utf8.RuneStart` -/
-def isRuneStart (b : UInt8) : Bool := b &&& 0xC0 != 0x80
-
-/-- `for cut > 0 && !utf8.RuneStart(reason[cut]) { cut-- }` -/
+/-- `for n > 0 && !utf8.RuneStart(reason[n]) { n-- }` -/
 def backToRuneStart (s : Bytes) : Nat → Except Fault Nat
   | 0 => .ok 0
   | cut + 1 => do
-    let b ← goIndex s ((cut + 1 : Nat) : Int)     -- reason[cut]
-    if isRuneStart b then .ok (cut + 1) else backToRuneStart s cut
+    let b ← goIndex s ((cut + 1 : Nat) : Int)     -- reason[n]
+    if GB.C13.runeStart b then .ok (cut + 1) else backToRuneStart s cut
 
 def truncateCloseReason (s : Bytes) : Except Fault Bytes :=
-  if s.length ≤ maxCloseReasonLen then .ok s
+  if s.length ≤ GB.C13.maxCloseReasonLen then .ok s
   else do
-    let cut ← backToRuneStart s maxCloseReasonLen
-    goSliceTo s cut                                -- reason[:cut]
+    let cut ← backToRuneStart s GB.C13.maxCloseReasonLen
+    goSliceTo s cut                                -- reason[:n]
 
 /-- Close codes a server may put on the wire (RFC 6455 §7.4.1: 1005, 1006, 1015 are reserved). -/
 def validCloseCode (c : Nat) : Bool :=
